@@ -141,6 +141,8 @@ def k_direct(run, case):
     seg = np.linalg.norm(np.diff(sel["p"], axis=0), axis=1)
     if unit == "frames":
         delta = int(rng.integers(1, n + 1))
+        if rng.random() < .12:
+            delta = int(rng.integers(n, 2 * n + 3))  # more frames than the trajectory has: no pair, refused
     elif unit == "meters":
         delta = float(np.sum(seg)) * 10.0**rng.uniform(-2, 0.1) + 1e-9
         if gen.all_integer(seg) and rng.random() < .7:
@@ -185,6 +187,10 @@ def k_direct(run, case):
         # exact grid: the selected pairs themselves are decided without rounding (C10's chain oracle)
         from vmon.props import C10
         C10.check_consecutive(run, case, pairs, seg, delta, 0.0, "meters consecutive", "consec-path")
+    if unit == "frames" and pairs:
+        # frame deltas are decided without rounding: the evaluated pairs are exactly the delta-frame pairs (C10's rule)
+        from vmon.props import C10
+        C10.check_frames(run, case, pairs, n, int(delta), all_pairs)
     fwd = [(i, j) for (i, j) in pairs if not 0 <= i < j < n]
     if not run.check(not fwd, "RPE: every evaluated pair is a relative motion i -> j with 0 <= i < j < N", case,
                      "values were computed for %d pairs that are no forward pairs, e.g. %s" % (len(fwd), fwd[:3]),
